@@ -31,7 +31,11 @@ def scalar(E):
     if isinstance(E, (int, float)):
         return float(E)
     vs = sorted(G.e_vars(E))
-    src = "lambda %s: %s" % (", ".join(vs), G.e_src(E))
+    opt = G.e_opt(E)
+    if not vs and opt:
+        raise ValueError("a shape function needs at least one required variable")
+    sig = vs + ["%s=%r" % (v, d) for v, d in sorted(opt.items()) if v not in vs]
+    src = "lambda %s: %s" % (", ".join(sig), G.e_src(E))
     return eval(src, {"torch": torch})
 
 
